@@ -31,7 +31,7 @@ RULE = ("per format (qcow2, vmdk, vhdx, vhd, vdi, hds via their generators; vmta
         "Non-trivial = a mutated (not pristine) input; distinct (family, mutation).")
 ASSUMPTIONS = ["CPU time and memory of CPython, cstruct and zlib are measured (watchdog + tracemalloc), not proved",
                "on mutated inputs only termination / resource bounds are verdict-bearing; ok-vs-error is not compared (C12 covers refusal)"]
-TIMEOUT_CASE = 12.0
+TIMEOUT_CASE = 45.0      # a linear pass over a few MiB under tracemalloc can take ~10 s; a stalled loop never comes back
 MEM_BASE = 16 << 20
 
 DISK = {"c02": "vmdk", "c03": "vhdx", "c04": "vhd", "c05": "vdi", "c06": "hds"}
@@ -88,7 +88,8 @@ def apply_mutation(files: dict, mut):
 
 
 def real_bytes(files) -> int:
-    return sum(sn if kind == "hex" else min(sn, 1 << 16) for im in files.values() for so, sn, kind, arg in im.segs)
+    """bytes a parser can actually read from the input files (holes read as zeros: they are input too); huge sparse files are capped"""
+    return sum(min(im.size, 64 << 20) for im in files.values())
 
 
 # --------------------------------------------------------------------------- bombs
@@ -164,17 +165,23 @@ def generate(seed, tier):
                 files = m.build(base).files
             except Exception:  # noqa
                 continue
-            if any(im.size > (64 << 20) for im in files.values()):
+            if any(im.size > (6 << 20) for im in files.values()):
                 continue
             add(cls, base=r, mut=["none"])
             for _ in range(12):
                 add(cls, base=r, mut=gen_mutation(rng, files))
+            if cls == "c03" and b % 2 == 0:
+                # a virtual size that ends in the middle of a logical sector (the last, partial sector must not stall the read loop)
+                r2 = copy.deepcopy(r)
+                r2["layers"][0]["size"] += rng.choice([-1, 1, -(r2["layers"][0]["ss"] // 2), 17])
+                if r2["layers"][0]["size"] > 0:
+                    add(cls, base=r2, mut=["none"], variant=["size-not-sector-multiple"])
     # ---- qcow2 (own opener: the mutated files are used, not the pristine truth)
     import gen_qcow2
     for b in range(16 * mult):
         r = gen_qcow2.gen_recipe(rng, "quick", nsnaps=rng.choice([0, 0, 2]))
         files = gen_qcow2.Truth(r).files
-        if any(im.size > (64 << 20) for im in files.values()):
+        if any(im.size > (6 << 20) for im in files.values()):
             continue
         add("qcow2", base=r, mut=["none"])
         for _ in range(14):
